@@ -41,17 +41,19 @@ type Actor struct {
 }
 
 type Controller struct {
-	mu      sync.Mutex
-	hits    map[string]int64
-	actors  sync.Map // gid → *Actor
+	mu        sync.Mutex
+	hits      map[string]int64
+	actors    sync.Map // gid → *Actor
 	crashSite string
 	crashK    int64
-	onHit   func(site string, a *Actor)
-	jitterP atomic.Int64 // per-mille probability of a yield/sleep at any site
-	jrng    sync.Mutex
-	rng     *rand.Rand
-	log     []string // global ordered log of (actor@site) for registered actors
-	logOn   bool
+	crashAny  int64 // crash at the n-th hit of any site (0 = off)
+	total     int64
+	onHit     func(site string, a *Actor)
+	jitterP   atomic.Int64 // per-mille probability of a yield/sleep at any site
+	jrng      sync.Mutex
+	rng       *rand.Rand
+	log       []string // global ordered log of (actor@site) for registered actors
+	logOn     bool
 }
 
 // Install sets the process-global hook handler.
@@ -68,6 +70,20 @@ func (c *Controller) CrashAt(site string, k int64) {
 	c.mu.Lock()
 	c.crashSite, c.crashK = site, k
 	c.mu.Unlock()
+}
+
+// CrashAtGlobal makes the process kill itself at the n-th hook hit overall (any site).
+func (c *Controller) CrashAtGlobal(n int64) {
+	c.mu.Lock()
+	c.crashAny = n
+	c.mu.Unlock()
+}
+
+// Total returns the number of hook hits so far.
+func (c *Controller) Total() int64 {
+	c.mu.Lock()
+	defer c.mu.Unlock()
+	return c.total
 }
 
 // OnHit registers a callback run synchronously on every hit (after counting, before pausing).
@@ -126,8 +142,9 @@ func curGID() int64 {
 func (c *Controller) handle(site string) {
 	c.mu.Lock()
 	c.hits[site]++
+	c.total++
 	n := c.hits[site]
-	crash := c.crashSite == site && c.crashK == n
+	crash := (c.crashSite == site && c.crashK == n) || (c.crashAny > 0 && c.total == c.crashAny)
 	onHit := c.onHit
 	c.mu.Unlock()
 	if crash {
